@@ -57,6 +57,8 @@ pub fn alphabet() -> Vec<Op> {
         mv("b", "A"),
         mv("a", "a:b"),
         mv("d/a", "a"),
+        mv("d", "a/d"),
+        mv("a", "a/d/a"),
         Op::OpenFile { via: 0, path: "A".into(), keep: 0 },
         Op::OpenDir { via: 0, path: "b".into(), keep: 0 },
     ]
@@ -65,7 +67,7 @@ pub fn alphabet() -> Vec<Op> {
 pub fn run(tier: Tier, seed: u64) -> i32 {
     let hp = prop();
     let mut rep = Report::new(hp.id, tier, seed, hp.level, hp.rule);
-    rep.rule.push_str("; bounded-exhaustive core: EVERY sequence of length <= 3 (quick) / <= 4 (thorough) over an alphabet of 18 op instances (create file/dir, remove, rename/move, open on names a, A, b, d, d/a, D/b and the invalid a:b) on a FAT12 fixed-root, a FAT16 and a FAT32 volume");
+    rep.rule.push_str("; bounded-exhaustive core: EVERY sequence of length <= 3 (quick) / <= 4 (thorough) over an alphabet of 20 op instances (create file/dir, remove, rename/move, open on names a, A, b, d, d/a, D/b and the invalid a:b) on a FAT12 fixed-root, a FAT16 and a FAT32 volume");
     for a in &hp.assumptions {
         rep.assume(a);
     }
